@@ -9,6 +9,7 @@ sys.path.insert(0, os.path.dirname(os.path.abspath(__file__)))
 import rpanic
 
 R = [
+    (r"\|K2\|.*\[Some under the dominating kind test\]", "decided structurally: the accessor whose result is unwrapped is definitely Some (table read off its MIR) for every kind left by the dominating `match v.kind()` / `if v.is_x()` edge on the same value; the key changes if the test goes or stops covering the accessor"),
     # ---- VM
     (r"interpret\|K2\|expect [Tt]o have a chunk", "State.chunk is Some in every State the VM executes: all constructions go through State::new_with_chunk (render_to, render_include, render_component, Tera::render_component_to)"),
     (r"interpret\|K2\|expect to have a span for error", "span presence: every instruction whose value can reach an error site is emitted with a span (C07.SPAN; fused paths carry one span per element)"),
